@@ -2,13 +2,14 @@ import Proofs.Linear
 import Proofs.Outer
 import Proofs.Ring
 import Model.Transform
+import Proofs.Det
 
 /-! # C11 — linear transformations: function/rotor matrices, adjoint, composition
 
 `LinearMatrix` is a matrix acting on coefficient vectors by left multiplication (`matrix @ mv.value`).
 The outermorphism: `f i` is the image of the `i`-th source basis vector, `Fprod d f t a` the ordered wedge of the images
 of the set bits of `a` (the same left fold as `_make_outermorphism`), `omap d m f` its linear extension — what
-`OutermorphismMatrix.__call__` computes.  `f(I) = det(m)·I` is not a theorem (evaluated on the implementation). -/
+`OutermorphismMatrix.__call__` computes.  `f(I) = det(m)·I` is `outer_pseudoscalar` (the implementation). -/
 
 namespace C11
 open Matrix
@@ -60,6 +61,13 @@ theorem outer_grade (f : Nat → CMV d R) (hf : ∀ i, IsHom d 1 (f i)) (t a : N
 /-- composition: `f_g ∘ f_f` is the outermorphism of the composed vector map (matrix product `m2 @ m1`) -/
 theorem outer_compose (k' m' e : Nat) (f : Nat → CMV m' R) (g : Nat → CMV e R) (hg : ∀ i, IsHom e 1 (g i)) (A : CMV k' R) :
     omap e m' g (omap m' k' f A) = omap e k' (fun i => omap e m' g (f i)) A := omap_comp k' m' e f g hg A
+
+/-- **`f(I) = det(m)·I`**: the outermorphism of the vector map whose `i`-th image has coordinates `v i` (column `i` of the
+    matrix) sends the pseudoscalar to `det • I` — the ordered outer product of `d` vectors in `d` dimensions is an alternating
+    multilinear form, hence its value on the basis (1) times the determinant -/
+theorem outer_pseudoscalar {d : Nat} (v : Fin d → (Fin d → R)) :
+    omap d d (fun i => if h : i < d then DetW.vec (v ⟨i, h⟩) else 0) (blade d (full d)) = (Matrix.of v).det • blade d (full d) :=
+  DetW.omap_pseudoscalar v
 
 /-- non-vacuity: a 2×2 example of the adjoint identity over ℤ -/
 example : (!![1, 2; 3, 4] *ᵥ ![1, 0]) ⬝ᵥ ![0, 1] = ![1, 0] ⬝ᵥ ((!![1, 2; 3, 4] : Matrix (Fin 2) (Fin 2) ℤ)ᵀ *ᵥ ![0, 1]) :=
